@@ -220,10 +220,17 @@ StrAt(bs, pos) ==
 Dec(n) == IF n < 10 THEN <<48 + n>>
           ELSE IF n < 100 THEN <<48 + (n \div 10), 48 + (n % 10)>>
           ELSE <<48 + (n \div 100), 48 + ((n \div 10) % 10), 48 + (n % 10)>>
+\* Names are byte strings of the linked string table; a reader decodes them as that table's strings are decoded (UTF-8).
+\* NonAscii (a definition, overridden to NonAsciiOn by C15's own cfgs so that the other checks' reduced cfgs keep plain ASCII names)
+\* puts a two-byte UTF-8 letter (U+00E9 = C3 A9) into every second file name and into the names whose padding count is 2.
+NonAscii == FALSE
+NonAsciiOn == TRUE
+Accent == <<195, 169>>
+Suffix(c, n) == IF NonAscii /\ n = 2 THEN <<c>> \o Accent ELSE Rep(c, n)
 SymName(i) == IF i = 0 THEN <<>> ELSE <<115, 121, 109, 95>> \o Dec(i)                               \* "sym_<i>"
-FileName(k) == <<108, 105, 98, 96 + k, 46, 115, 111, 46>> \o Dec(k)                                 \* "lib<a..>.so.<k>"
-DefName(k, j) == <<86, 69, 82, 95>> \o Dec(k) \o <<46>> \o Dec(j) \o Rep(120, (k + j) % 3)          \* "VER_<k>.<j>x*"
-NeedName(k, j) == <<71, 76, 73, 66, 67, 95>> \o Dec(k) \o <<46>> \o Dec(j) \o Rep(121, (k + 2 * j) % 3)  \* "GLIBC_<k>.<j>y*"
+FileName(k) == <<108, 105, 98, 96 + k>> \o (IF NonAscii /\ (k % 2) = 0 THEN Accent ELSE <<>>) \o <<46, 115, 111, 46>> \o Dec(k)   \* "lib<a..>[e-acute].so.<k>"
+DefName(k, j) == <<86, 69, 82, 95>> \o Dec(k) \o <<46>> \o Dec(j) \o Suffix(120, (k + j) % 3)          \* "VER_<k>.<j>x*"
+NeedName(k, j) == <<71, 76, 73, 66, 67, 95>> \o Dec(k) \o <<46>> \o Dec(j) \o Suffix(121, (k + 2 * j) % 3)  \* "GLIBC_<k>.<j>y*"
 
 RECURSIVE Sum(_, _)
 Sum(sh, k) == IF k = 0 THEN 0 ELSE sh[k] + Sum(sh, k - 1)
